@@ -51,11 +51,11 @@ def cache_load(url, replace_file=False):
             print("failed loading '%s': %s" % (url, exc))
             return
 
-        file_obj = open(cache_file, "w")
+        file_obj = open(cache_file, "w", encoding="utf-8")
         file_obj.write(str(data))
         file_obj.close()
 
-    return open(cache_file)
+    return open(cache_file, encoding="utf-8")
 
 
 class Terminologies(dict):
